@@ -18,7 +18,7 @@ func TestMain(m *testing.M) {
 		Property: "C09", Level: "exploration",
 		Rule: "rapid state machine over one weighted trie (in memory only, or on an in-memory storage adapter): update, rewrite with the same value, delete, delete of an absent key, commit at collapse level 0..5 or 64 followed by the batch write, garbage collection (only when clean), reload from (root hash, weight), observe. Keys are 32 bytes built to share prefixes of every length (divergence in the high or only the low nibble, siblings differing in the last nibble); a key's weight is 1 + value[0] mod 7. " +
 			"Oracle: after EVERY step Weight() = sum of live weights; 'observe' (an explicit action, drawn only when the trie is clean or storage-less, because hash readers clear dirty flags) checks Root() against internal/refwmpt (independent hasher over the canonical shape), and for the first and last block of every key's cumulative-weight interval plus drawn interior blocks that GetBlockProof names the owning key and the proof verifies in a fresh trie to (root, owner's value). " +
-			"Non-trivial = a commit with collapse level below the trie depth was followed by an update or delete of a key under a collapsed subtree, with >=3 live keys sharing a prefix; distinct = distinct step log.",
+			"Removals alternate between Update(nil), Update(empty non-nil) and Delete(key); updates may go back to a value the key had earlier; deleted entries may come back unchanged; one or two collection passes. Non-trivial = a commit with collapse level below the trie depth was followed by an update or delete of a key under a collapsed subtree, with >=3 live keys sharing a prefix; distinct = distinct step log.",
 		Assumptions: []string{"storage is the in-memory adapter of internal/memkv (atomic batches, locked batcher)", "garbage collection is called only on a clean trie whose batch is written (the order the package's own tests use); other positions belong to C11", "block numbers outside 1..total are outside the domain"},
 	})
 	ev.Main(m)
